@@ -420,6 +420,9 @@ func (c *conn) Write(p []byte) (int, error) {
 	if c.isDatagram {
 		return c.sendTo(p, nil)
 	}
+	if !c.opened { // closed earlier in this callback, the fd may belong to somebody else by now
+		return 0, net.ErrClosed
+	}
 	return c.write(p)
 }
 
@@ -439,6 +442,9 @@ func (c *conn) SendTo(p []byte, addr net.Addr) (int, error) {
 func (c *conn) Writev(bs [][]byte) (int, error) {
 	if c.isDatagram {
 		return 0, errorx.ErrUnsupportedOp
+	}
+	if !c.opened { // closed earlier in this callback, the fd may belong to somebody else by now
+		return 0, net.ErrClosed
 	}
 	return c.writev(bs)
 }
@@ -461,6 +467,9 @@ func (c *conn) WriteTo(w io.Writer) (n int64, err error) {
 }
 
 func (c *conn) Flush() error {
+	if !c.isDatagram && !c.opened {
+		return net.ErrClosed
+	}
 	if err := c.loop.write(c); err != nil {
 		return err
 	}
